@@ -224,3 +224,29 @@ pub fn first_initial_native(len_: u16) -> u32 {
         1
     }
 }
+
+/// Native replay body for the E2 query `e2_endpoint_new_cid_no_overwrite` (C09): a CID generator that
+/// repeats itself (X, X, Y).  The second connection must end up with Y and packets for X must still
+/// reach the first connection.
+pub fn new_cid_collision_native(_x: u8) -> u32 {
+    struct Repeating(u8);
+    impl crate::ConnectionIdGenerator for Repeating {
+        fn generate_cid(&mut self) -> ConnectionId {
+            self.0 += 1;
+            ConnectionId::new(&[if self.0 <= 2 { 0xaa } else { 0xbb }; 8])
+        }
+        fn cid_len(&self) -> usize { 8 }
+        fn cid_lifetime(&self) -> Option<Duration> { None }
+    }
+    let mut cfg = EndpointConfig::new(Arc::new(NullHmac));
+    cfg.rng_seed(Some([7; 32]));
+    cfg.cid_generator(Arc::new(|| Box::new(Repeating(0))));
+    let mut ep = Endpoint::new(Arc::new(cfg), None, true);
+    let (ch1, ch2) = (ConnectionHandle(0), ConnectionHandle(1));
+    let a = ep.new_cid(ch1);
+    let b = ep.new_cid(ch2);
+    assert!(a != b, "two connections were given the same CID");
+    assert!(ep.index.connection_ids.get(&a) == Some(&ch1), "a colliding CID re-pointed the first connection's route");
+    assert!(ep.index.connection_ids.get(&b) == Some(&ch2));
+    1
+}
